@@ -82,6 +82,10 @@ def main():
         seed = 0
     mod = importlib.import_module("checks." + a.prop.lower())
     ctx = harness.Ctx(a.prop.upper(), tier, seed)
+    import glob
+
+    for old in glob.glob(os.path.join(HERE, "replays", a.prop.upper(), "*.json")):
+        os.remove(old)  # replay files describe the current run only
     t0 = time.time()
     try:
         extra = mod.run(ctx) or {}
